@@ -480,13 +480,15 @@ theorem combine_nodedup_spec (cfg : Cfg) {T : Int} {st st' : KSt V} {O : Pts V} 
   cases h1 : passFull cfg.size st.blocks with
   | mk o1 R1 =>
   rw [h1] at h
-  dsimp only at h
+  try dsimp only at h
   obtain ⟨P1, e1, f1, g1, k1, _⟩ := passFull_spec cfg.size st.blocks o1 R1 h1
   -- phase 2
-  generalize h2 : (if cfg.fast = true then (passFast R1, ([] : List (Block V))) else (([] : List (OBlk V)), R1)) = ph2 at h
-  obtain ⟨o2, R2⟩ := ph2
-  dsimp only at h
+  cases h2 : passFastIf cfg.fast R1 with
+  | mk o2 R2 =>
+  rw [h2] at h
+  try dsimp only at h
   have hph2 : ∃ P2, R1 = P2 ++ R2 ∧ outPts o2 = unreadPts P2 ∧ (∀ x ∈ o2, IsPass P2 x) := by
+    unfold passFastIf at h2
     by_cases hf : cfg.fast = true
     · rw [if_pos hf] at h2
       simp only [Prod.mk.injEq] at h2
@@ -498,12 +500,12 @@ theorem combine_nodedup_spec (cfg : Cfg) {T : Int} {st st' : KSt V} {O : Pts V} 
       exact ⟨[], by simp, rfl, by simp⟩
   obtain ⟨P2, e2, f2, g2⟩ := hph2
   -- phase 3
-  generalize h3 : (match R2 with
-      | [b] => (if (!CompactBlock.read b) = true then [passThrough b] else [], ([] : List (Block V)))
-      | _ => (([] : List (OBlk V)), R2)) = ph3 at h
-  obtain ⟨o3, R3⟩ := ph3
-  dsimp only at h
+  cases h3 : passLast R2 with
+  | mk o3 R3 =>
+  rw [h3] at h
+  try dsimp only at h
   have hph3 : ∃ P3, R2 = P3 ++ R3 ∧ outPts o3 = unreadPts P3 ∧ (∀ x ∈ o3, IsPass P3 x) := by
+    unfold passLast at h3
     split at h3
     · next b =>
       simp only [Prod.mk.injEq] at h3
@@ -588,7 +590,7 @@ theorem combine_nodedup_spec (cfg : Cfg) {T : Int} {st st' : KSt V} {O : Pts V} 
       right
       have hm := lookup_some_mem hu
       have := (q4 _ hm).1
-      exact lookup_eq_none.mpr (fun p hp heq => by have := hO p hp; simp at this; omega)
+      exact lookup_eq_none.mpr (fun p hp heq => by have := hO p hp; omega)
   · intro o ho
     rw [c1] at ho
     have hpass : ∀ P, (∀ b ∈ P, b ∈ st.blocks) → IsPass P o →
@@ -605,7 +607,7 @@ theorem combine_nodedup_spec (cfg : Cfg) {T : Int} {st st' : KSt V} {O : Pts V} 
     · obtain ⟨k1', k2', k3'⟩ := c3 o hx
       exact ⟨k1', Or.inl ⟨k2', k3'⟩⟩
   · show r4.1.length ≤ st.blocks.length
-    rw [hP]; simp
+    rw [hP]; simp; omega
   · intro b hb
     exact ⟨b, by rw [hP]; exact List.mem_append_right _ hb, SameStatic.refl b⟩
   · intro hs hm
@@ -620,5 +622,78 @@ theorem combine_nodedup_spec (cfg : Cfg) {T : Int} {st st' : KSt V} {O : Pts V} 
     rcases k4 with hx | hx
     · rw [hr2] at hx; simp at hx; omega
     · exact hx
+
+
+/-- `merge<T>()`, while the key has at most 20 blocks left -/
+theorem mergeStep_spec (cfg : Cfg) {T : Int} {st st' : KSt V} {O : Pts V} {target : Int → Option V}
+    (inv : KInv T st O target) (hm : st.merged = []) (hlen : st.blocks.length ≤ 20)
+    (h : mergeStep cfg st = .ok st') : StepOut cfg.size T st st' O target := by
+  unfold mergeStep at h
+  by_cases hg : st.blocks.length = 0 ∧ st.merged.length = 0 ∧ st.mv.length = 0
+  · rw [if_pos hg] at h
+    simp only [pure, Except.pure, Except.ok.injEq] at h
+    subst h
+    refine ⟨⟨T, Int.le_refl _, ?_⟩, ?_, Nat.le_refl _, fun b hb => ⟨b, hb, SameStatic.refl b⟩, ?_⟩
+    · rw [hm]; simpa using inv
+    · rw [hm]; simp
+    · intro _ _
+      exact ⟨List.length_eq_zero_iff.mp hg.2.2, List.length_eq_zero_iff.mp hg.1⟩
+  · rw [if_neg hg] at h
+    dsimp only at h
+    have hw : ∀ b ∈ st.blocks, BlockWF b := fun b hb => (inv.hb b hb).wf
+    obtain ⟨s1, s2, s3, s4⟩ := stable_spec st.blocks hw hlen
+    generalize hsorted : Sort.stable blkLess st.blocks = sorted at h s1 s2 s3 s4
+    have inv1 : KInv T { st with blocks := sorted } O target := by
+      refine ⟨fun b hb => inv.hb b ((s3 b).mp hb), inv.hasc, inv.hle, ?_⟩
+      intro t
+      show target t = (restAt sorted t).or (lookup (O ++ st.mv) t)
+      rw [s2 t]; exact inv.hc t
+    -- transfer a StepOut about the sorted state back to `st`
+    have transfer : StepOut cfg.size T { st with blocks := sorted } st' O target → StepOut cfg.size T st st' O target := by
+      intro so
+      refine ⟨so.hex, ?_, ?_, ?_, so.hempty⟩
+      · intro o ho
+        obtain ⟨k1, k2⟩ := so.hout o ho
+        refine ⟨k1, ?_⟩
+        rcases k2 with k2 | ⟨b, hb, hr, rfl⟩
+        · exact Or.inl k2
+        · exact Or.inr ⟨b, (s3 b).mp hb, hr, rfl⟩
+      · have := so.hlen
+        simp only at this
+        omega
+      · intro b' hb'
+        obtain ⟨b, hb, hs⟩ := so.hsame b' hb'
+        exact ⟨b, (s3 b).mp hb, hs⟩
+    apply transfer
+    generalize hdd : needDedup (decide (st.mv.length ≠ 0)) sorted = dd at h
+    unfold needDedup at hdd
+    cases dd with
+    | true => exact combine_dedup_spec cfg inv1 s1 h
+    | false =>
+      have hmv : st.mv = [] := by
+        cases sorted with
+        | nil =>
+          simp only [ne_eq, decide_not, Bool.not_eq_eq_eq_not, Bool.not_false, decide_eq_true_eq] at hdd
+          exact List.length_eq_zero_iff.mp hdd
+        | cons b0 bs =>
+          by_cases hz : st.mv.length = 0
+          · exact List.length_eq_zero_iff.mp hz
+          · simp [hz] at hdd
+      have hfacts : (∀ b ∈ sorted, Clean b) ∧ Ordered sorted := by
+        cases sorted with
+        | nil => exact ⟨by simp, List.Pairwise.nil⟩
+        | cons b0 bs =>
+          have hz : st.mv.length = 0 := by rw [hmv]; rfl
+          simp only [hz, ne_eq, not_true_eq_false, decide_false, Bool.not_false, if_true,
+            Bool.or_eq_false_iff, decide_eq_false_iff_not] at hdd
+          obtain ⟨⟨ht, hp⟩, htail⟩ := hdd
+          have hwS : ∀ b ∈ b0 :: bs, BlockWF b := fun b hb => hw b ((s3 b).mp hb)
+          obtain ⟨r1, r2, r3⟩ := nodedup_tail_facts bs b0 (fun c hc => hwS c (List.mem_cons_of_mem _ hc)) s1 htail
+          refine ⟨?_, List.pairwise_cons.mpr ⟨r1, r2⟩⟩
+          intro c hc
+          rcases List.mem_cons.mp hc with rfl | hc2
+          · exact ⟨List.length_eq_zero_iff.mp (by omega), hp⟩
+          · exact r3 c hc2
+      exact combine_nodedup_spec cfg inv1 hmv hm hfacts.1 hfacts.2 h
 
 end Influx.Model.Compact
